@@ -350,7 +350,7 @@ func c12r1(c *Ctx) {
 	for _, tn := range []string{"RPCRelayV2Header", "RPCRelayV2BlockOutline"} {
 		cc := clauseOf(f, tn)
 		if cc == nil {
-			ir.Fail("no case for gateway." + tn)
+			ir.Fail("no case for gateway.%s", tn)
 		}
 		var unknown, detached []*cfgx.Edge
 		for _, call := range f.CallsIn(cc, false) {
@@ -866,7 +866,7 @@ func c12r5(c *Ctx) {
 		tn := "RPCRelayV2Header"
 		cc := clauseOf(f, tn)
 		if cc == nil {
-			ir.Fail("no case for gateway." + tn)
+			ir.Fail("no case for gateway.%s", tn)
 		}
 		var attached []*cfgx.Edge
 		for _, n := range g.Nodes {
@@ -895,7 +895,7 @@ func c12r5(c *Ctx) {
 		tn := "RPCRelayV2BlockOutline"
 		cc := clauseOf(f, tn)
 		if cc == nil {
-			ir.Fail("no case for gateway." + tn)
+			ir.Fail("no case for gateway.%s", tn)
 		}
 		var added []*cfgx.Edge
 		for _, call := range f.CallsIn(cc, false) {
@@ -1022,7 +1022,7 @@ func c12r6(c *Ctx) {
 	for _, tn := range []string{"RPCRelayV2Header", "RPCRelayV2BlockOutline"} {
 		cc := clauseOf(f, tn)
 		if cc == nil {
-			ir.Fail("no case for gateway." + tn)
+			ir.Fail("no case for gateway.%s", tn)
 		}
 		var workOK []*cfgx.Edge
 		for _, n := range g.Nodes {
